@@ -10,7 +10,6 @@ CONSTANTS
   MaxFacts = 1
   EmitAll = TRUE
 INVARIANTS
-  LineageAgreesSmall
   PathsWellFormed
   ChildNodesSane
   SimSymmetric
